@@ -1173,14 +1173,12 @@ func (h *handler) handleLocked(ctx context.Context, nextCid cid.Cid, sel ipld.No
 	}
 
 	var syncedCount int
+	// Blocks that the current segment has handed to the hook.
+	segSeen := make(map[cid.Cid]struct{})
 	hook := func(p peer.ID, c cid.Cid) {
 		syncedCount++
 		if bh != nil {
-			// Where a segmented sync continues is decided by the hook call
-			// for the last block of a segment. What the call for an earlier
-			// block of the segment named is a block that this segment has
-			// synced itself.
-			segSync.nextSyncCid = nil
+			segSeen[c] = struct{}{}
 			bh(p, c, segSync)
 		}
 	}
@@ -1257,6 +1255,7 @@ SegSyncLoop:
 		}
 		nextCid = *segSync.nextSyncCid
 		segSync.reset()
+		clear(segSeen)
 		err := syncer.Sync(ctx, nextCid, segmentSel)
 		if err != nil {
 			return 0, err
@@ -1270,6 +1269,14 @@ SegSyncLoop:
 		// If hook action is not called, or next CID is set to cid.Undef then break out of the
 		// segmented sync cycle.
 		if segSync.nextSyncCid == nil || segSync.nextSyncCid.Equals(cid.Undef) {
+			break
+		}
+
+		// The last call of the cycle named a block that this segment has
+		// synced itself: the hook made no call for the blocks after it (the
+		// documented way to end the sync at the end of a chain), there is
+		// nothing to continue with.
+		if _, ok := segSeen[*segSync.nextSyncCid]; ok {
 			break
 		}
 
